@@ -6,15 +6,16 @@ import (
 	"io/fs"
 	"os"
 	"path/filepath"
+	"runtime"
+	"runtime/debug"
 	"strings"
 )
 
 // importSrc calls gta on the source code for the package identified by
 // importPath. rPath is the relative path to the directory containing the source
 // code for the package. It can also be "main" as a special value.
-func (interp *Interpreter) importSrc(rPath, importPath string, skipTest bool) (string, error) {
+func (interp *Interpreter) importSrc(rPath, importPath string, skipTest bool) (_ string, err error) {
 	var dir string
-	var err error
 
 	if interp.srcPkg[importPath] != nil {
 		name, ok := interp.pkgNames[importPath]
@@ -145,6 +146,17 @@ func (interp *Interpreter) importSrc(rPath, importPath string, skipTest bool) (s
 	interp.resizeFrame()
 	interp.frame.mutex.Unlock()
 	interp.mutex.Unlock()
+
+	// A panic raised by the initialisation of the package (or by its main
+	// function) is returned as an error, as Execute does: it must not unwind
+	// into the caller of Eval or EvalPath.
+	defer func() {
+		if r := recover(); r != nil {
+			var pc [64]uintptr // 64 frames should be enough.
+			n := runtime.Callers(1, pc[:])
+			err = Panic{Value: r, Callers: pc[:n], Stack: debug.Stack()}
+		}
+	}()
 
 	// Once all package sources have been parsed, execute entry points then init functions.
 	for _, n := range rootNodes {
